@@ -1486,13 +1486,18 @@ class BADS:
                 if yval_vec.size == 1:
                     yval_vec = np.vstack((yval_vec, self.yval))
                     if self.options["specify_target_noise"]:
-                        ysd_vec = np.vstack(
-                            (
-                                ysd_vec,
-                                self.function_logger.S[
-                                    self.function_logger.Xn
-                                ],
+                        # SD logged for the returned point (not for the last logged point)
+                        idx_u = np.argwhere(
+                            np.all(
+                                self.function_logger.X[
+                                    : self.function_logger.Xn + 1
+                                ]
+                                == self.u,
+                                axis=1,
                             )
+                        )[-1].item()
+                        ysd_vec = np.vstack(
+                            (ysd_vec, self.function_logger.S[idx_u])
                         )
 
                 self.optim_state["yval_vec"] = np.copy(yval_vec)
